@@ -1,4 +1,5 @@
 import SpVerif.Lemmas.Area
+import SpVerif.Lemmas.Winding
 /-!
 # C15 — oriented() normalises ring direction without changing the shape
 
@@ -133,6 +134,69 @@ theorem C15_area_magnitude (shell : List Pt) (holes : List (List Pt)) (hs : Well
       have h00 : ringArea2 shell = 0 := by omega
       simp only [orientRings, area2, List.map_cons, List.sum_cons, hz, if_false]
       rw [k2 hpos]; omega
+
+theorem winding_sum (p : Pt) (rings : List (List Pt)) : winding p rings = (rings.map (ringWinding p)).sum := by
+  unfold winding
+  have : ∀ (acc : Int), rings.foldl (fun acc r => acc + ringWinding p r) acc = acc + (rings.map (ringWinding p)).sum := by
+    induction rings with
+    | nil => intro acc; simp
+    | cons r rs ih => intro acc; simp only [List.foldl_cons, List.map_cons, List.sum_cons]; rw [ih]; omega
+  rw [this]; omega
+
+/-- **intersection results are unchanged** (point-in-polygon, hence `intersects` and `sjoin`): for a polygon whose holes are
+wound opposite to its shell (either way round) and whose zero-area rings do not wind around `p`, the winding number about
+every point is kept or negated as a whole, so `point_intersects_polygon` gives the same answer before and after -/
+theorem C15_point_intersection_unchanged (p : Pt) (shell : List Pt) (holes : List (List Pt))
+    (hcons : (0 ≤ ringArea2 shell ∧ ∀ h ∈ holes, ringArea2 h ≤ 0) ∨ (ringArea2 shell ≤ 0 ∧ ∀ h ∈ holes, 0 ≤ ringArea2 h))
+    (hz : ∀ r ∈ shell :: holes, ringArea2 r = 0 → ringWinding p r = 0) :
+    pointInRings p (orientRings (shell :: holes)) = pointInRings p (shell :: holes) := by
+  rcases hcons with ⟨h0, hneg⟩ | ⟨h0, hpos⟩
+  · -- already oriented: nothing is touched
+    have e : orientRings (shell :: holes) = shell :: holes := by
+      simp only [orientRings]
+      have : ¬ ringArea2 shell < 0 := by omega
+      simp only [this, if_false]
+      congr 1
+      conv => rhs; rw [← List.map_id holes]
+      apply List.map_congr_left
+      intro h hm
+      have := hneg h hm
+      have : ¬ ringArea2 h > 0 := by omega
+      simp [this]
+    rw [e]
+  · -- everything with non-zero area is reversed: the winding number is negated as a whole
+    have hw : winding p (orientRings (shell :: holes)) = - winding p (shell :: holes) := by
+      rw [winding_sum, winding_sum]
+      simp only [orientRings, List.map_cons, List.sum_cons, List.map_map]
+      have hs : ringWinding p (if ringArea2 shell < 0 then shell.reverse else shell) = - ringWinding p shell := by
+        by_cases hlt : ringArea2 shell < 0
+        · simp only [hlt, if_true]; exact ringWinding_reverse p shell
+        · simp only [hlt, if_false]
+          have : ringWinding p shell = 0 := hz shell (by simp) (by omega)
+          rw [this]; rfl
+      rw [hs]
+      have hh : ∀ (hl : List (List Pt)), (∀ h ∈ hl, 0 ≤ ringArea2 h) → (∀ h ∈ hl, ringArea2 h = 0 → ringWinding p h = 0) →
+          (hl.map (ringWinding p ∘ fun h => if ringArea2 h > 0 then h.reverse else h)).sum = - (hl.map (ringWinding p)).sum := by
+        intro hl
+        induction hl with
+        | nil => intro _ _; rfl
+        | cons x xs ih =>
+          intro hp hzz
+          simp only [List.map_cons, List.sum_cons, Function.comp]
+          have := ih (fun h hm => hp h (List.mem_cons_of_mem _ hm)) (fun h hm => hzz h (List.mem_cons_of_mem _ hm))
+          rw [this]
+          by_cases hgt : ringArea2 x > 0
+          · simp only [hgt, if_true]; rw [ringWinding_reverse]; omega
+          · simp only [hgt, if_false]
+            have h0x := hp x (by simp)
+            have : ringWinding p x = 0 := hzz x (by simp) (by omega)
+            rw [this]; omega
+      rw [hh holes hpos (fun h hm => hz h (List.mem_cons_of_mem _ hm))]; omega
+    unfold pointInRings
+    rw [hw]
+    cases hc : winding p (shell :: holes) != 0 with
+    | true => simp only [bne_iff_ne, ne_eq] at hc ⊢; omega
+    | false => simp only [bne_eq_false_iff_eq] at hc ⊢; omega
 
 /-! non-vacuity: clockwise shell with a counter-clockwise hole (consistently wound, "the other way round") -/
 example : orientRings [[(0,0),(0,6),(6,6),(6,0),(0,0)], [(1,1),(3,1),(3,3),(1,3),(1,1)]]
